@@ -1,32 +1,31 @@
 (* C05 — malformed rules are rejected, never partially evaluated. *)
-From Rules Require Import Eval EvalProofs.
+From Rules Require Import Eval EvalProofs Grammar SentenceProofs.
 Open Scope N_scope.
 
-(* a verdict true is produced only for a text whose trimmed form lexes (maximal munch over the
-   lexer rules generated from JsonQuery.g4) and parses to end of input as one `query` *)
+(* [is_sentence t]: t has a maximal-munch tokenisation over the lexer rules generated from
+   JsonQuery.g4 whose token list derives from the start rule `query` by the parser rules
+   generated from JsonQuery.g4 — nothing left over. *)
+
+(* a verdict true is produced only for a sentence (outer whitespace aside) *)
 Theorem C05_only_sentences :
-  forall lower rule o, o_verdict (run lower rule o) = true ->
-    exists toks q, lex g4_lexer_rules (trim_space (utf8_decode rule)) = Some toks /\ parse_tokens toks = Some q.
-Proof.
-  intros lower rule o H. unfold run, new_evaluator, process in H. cbn in H.
-  unfold parse_rule, parse_text in H.
-  destruct (lex g4_lexer_rules (trim_space (utf8_decode rule))) as [toks|]; [|discriminate].
-  destruct (parse_tokens toks) as [q|] eqn:E; [|discriminate]. exists toks, q. split; [reflexivity|exact E].
-Qed.
+  forall lower rule o, o_verdict (run lower rule o) = true -> is_sentence (trim_space (utf8_decode rule)).
+Proof. exact verdict_only_for_sentences. Qed.
 Print Assumptions C05_only_sentences.
 
 (* every other text: (false, error) from NewEvaluator+Process and rules.Evaluate, false from
    parser.Evaluate, whatever the object *)
 Theorem C05_reject :
-  forall lower rule o, parse_rule rule = None ->
+  forall lower rule o, ~ is_sentence (trim_space (utf8_decode rule)) ->
     run lower rule o = mkOut false ErrOther None /\
     rules_evaluate lower rule o = (false, ErrOther) /\
     parser_evaluate lower rule o = false.
-Proof.
-  intros lower rule o H. pose proof (run_reject lower rule o H) as R.
-  unfold rules_evaluate, parser_evaluate. rewrite R. repeat split.
-Qed.
+Proof. exact non_sentences_rejected. Qed.
 Print Assumptions C05_reject.
+
+(* the model recogniser decides sentence-hood *)
+Theorem C05_recogniser : forall t, parse_text t <> None <-> is_sentence t.
+Proof. exact parse_text_iff_sentence. Qed.
+Print Assumptions C05_recogniser.
 
 (* the texts of the statement are not sentences *)
 Example C05_examples :
